@@ -494,6 +494,9 @@ def get_fn_arity(f):
             if isinstance(f.args, list):
                 for q in f.args:
                     x.update(_e(q, level=1))
+            elif f.args is not None:
+                # a monadic operator keeps its single operand unwrapped
+                x.update(_e(f.args, level=1))
         elif isinstance(f, list):
             x = set()
             for q in f:
